@@ -81,6 +81,10 @@ func zzCheckStore(ctx context.Context, s *Store[*zh.Hdr], chain []*zh.Hdr, m *zz
 	for i, h := range chain {
 		inRun := i >= m.tail && i <= m.head
 		zz.Assert(s.HasAt(ctx, h.H) == inRun, "HasAt agrees with the range Tail..Head")
+		if !m.stored[i] && h.H <= head.H {
+			_, err := s.GetByHeight(ctx, h.H)
+			zz.Assert(err != nil, "a header that was deleted or never appended is not returned by GetByHeight")
+		}
 		if m.stored[i] {
 			g, err := s.GetByHeight(ctx, h.H)
 			zz.Assert(err == nil && g != nil && g.H == h.H && g.ID == h.ID, "every stored header is returned by GetByHeight with that exact height")
@@ -126,8 +130,42 @@ func ZzC04() {
 	s := zzOpen(d, cfg)
 	chain := zzChain(cfg.base, K)
 	m := &zzModel{stored: make([]bool, K)}
+	// prelude (does not count towards L): a prefix of the chain already flushed to disk by an earlier run
+	if pre := zz.Choice("prelude", K+1); pre > 0 {
+		zz.Assert(s.Append(ctx, chain[:pre]...) == nil, "Append accepts chain headers")
+		m.appendRun(0, pre-1)
+		zz.Assert(s.Stop(ctx) == nil, "Stop succeeds")
+		s = zzOpen(d, cfg)
+	}
 	for op := 0; op < L; op++ {
-		switch zz.Choice("op", 3) {
+		switch zz.Choice("op", 4) {
+		case 3: // DeleteRange around the ends of the current run
+			if !m.init {
+				continue
+			}
+			tailH, headH := chain[m.tail].H, chain[m.head].H
+			froms := []uint64{tailH - 1, tailH, tailH + 1, headH}
+			tos := []uint64{tailH + 1, headH, headH + 1, headH + 2}
+			from, to := froms[zz.Choice("del.from", 4)], tos[zz.Choice("del.to", 4)]
+			err := s.DeleteRange(ctx, from, to)
+			valid := from < to && ((from == tailH && to <= headH+1) || (to == headH+1 && from >= tailH))
+			zz.Assert((err == nil) == valid, "DeleteRange accepts exactly a prefix from Tail, a suffix to Head+1 or the whole chain")
+			if valid && err == nil {
+				zz.Reach("delete")
+				for i := range chain {
+					if chain[i].H >= from && chain[i].H < to {
+						m.stored[i] = false
+					}
+				}
+				switch {
+				case from == tailH && to == headH+1:
+					m.init = false
+				case from == tailH:
+					m.tail = int(to - chain[0].H)
+				default:
+					m.head = int(from-chain[0].H) - 1
+				}
+			}
 		case 0: // append a contiguous sub-run chain[i..j] (any position: gaps, repeats, out of order)
 			i := zz.Choice("app.i", K)
 			j := i + zz.Choice("app.len", K-i)
